@@ -1,4 +1,206 @@
 /- helper lemmas (Loop) -/
 import TinyHttpModel.WireSpec
 namespace TH
+
+/-! ### `wopsFlushed` never moves the flush mark backwards -/
+
+theorem wopsFlushed_ge (ops : List WOp) : ∀ (pos mark : Nat), mark ≤ pos → mark ≤ wopsFlushed ops pos mark := by
+  induction ops with
+  | nil => intro pos mark _; simp [wopsFlushed]
+  | cons op r ih =>
+    intro pos mark h
+    cases op with
+    | write b => simp only [wopsFlushed]; exact ih _ _ (by omega)
+    | flush => simp only [wopsFlushed]; exact Nat.le_trans h (ih pos pos (Nat.le_refl _))
+
+/-! ### the state only grows -/
+
+/-- `s'` extends `s`: delivered requests, output bytes and statuses are only appended to. -/
+def St.Ext (s s' : St) : Prop :=
+  (∃ ds, s'.delivered = s.delivered ++ ds) ∧ (∃ o, s'.out = s.out ++ o) ∧ (∃ st, s'.statuses = s.statuses ++ st)
+
+theorem St.Ext.refl (s : St) : St.Ext s s :=
+  ⟨⟨[], by simp⟩, ⟨[], by simp⟩, ⟨[], by simp⟩⟩
+
+theorem St.Ext.trans {a b c : St} (h1 : St.Ext a b) (h2 : St.Ext b c) : St.Ext a c := by
+  obtain ⟨⟨d1, hd1⟩, ⟨o1, ho1⟩, ⟨t1, ht1⟩⟩ := h1
+  obtain ⟨⟨d2, hd2⟩, ⟨o2, ho2⟩, ⟨t2, ht2⟩⟩ := h2
+  exact ⟨⟨d1 ++ d2, by rw [hd2, hd1, List.append_assoc]⟩, ⟨o1 ++ o2, by rw [ho2, ho1, List.append_assoc]⟩,
+    ⟨t1 ++ t2, by rw [ht2, ht1, List.append_assoc]⟩⟩
+
+theorem St.Ext.emit (s : St) (status : Nat) (bs : Option Bytes) (fl : Bool) : St.Ext s (s.emit status bs fl) :=
+  ⟨⟨[], by simp [St.emit]⟩, ⟨bs.getD [], by simp [St.emit]⟩, ⟨[status], by simp [St.emit]⟩⟩
+
+theorem St.Ext.deliver (s : St) (d : Delivered) : St.Ext s { s with delivered := s.delivered ++ [d] } :=
+  ⟨⟨[d], rfl⟩, ⟨[], by simp⟩, ⟨[], by simp⟩⟩
+
+theorem St.Ext.write (s : St) (b : Bytes) (f : Nat) : St.Ext s { s with out := s.out ++ b, flushed := f } :=
+  ⟨⟨[], by simp⟩, ⟨b, rfl⟩, ⟨[], by simp⟩⟩
+
+/-- the state after the optional `100 Continue`. -/
+def handleS1 (s : St) (h : Head) (fr : Framing) (a : Action) : St :=
+  if a.asReaderCalls > 0 && fr.expectContinue then
+    s.emit 100 (printResp (Resp.empty 100) [] h.version h.headers true none) true
+  else s
+
+/-- the state after the application's finish, from the state `s2` in which the request was delivered. -/
+def handleS3 (s2 : St) (h : Head) (f : Finish) : St :=
+  match f with
+  | .respond r => s2.emit r.status (printResp r.toResp r.pieces h.version h.headers h.method.isHead none) true
+  | .drop => s2.emit 500 (printResp (Resp.empty 500) [] h.version h.headers h.method.isHead none) true
+  | .writer ops =>
+    { s2 with out := s2.out ++ wopsBytes ops, flushed := wopsFlushed ops s2.out.length s2.flushed }
+  | .upgrade proto r ops =>
+    let s' := s2.emit r.status (printResp r.toResp r.pieces h.version h.headers false (some proto)) true
+    { s' with out := s'.out ++ wopsBytes ops, flushed := wopsFlushed ops s'.out.length s'.flushed }
+
+theorem handleS1_ext (s : St) (h : Head) (fr : Framing) (a : Action) : St.Ext s (handleS1 s h fr a) := by
+  unfold handleS1; split
+  · exact St.Ext.emit ..
+  · exact St.Ext.refl _
+
+theorem handleS3_ext (s2 : St) (h : Head) (f : Finish) : St.Ext s2 (handleS3 s2 h f) := by
+  unfold handleS3; cases f with
+  | respond r => exact St.Ext.emit ..
+  | drop => exact St.Ext.emit ..
+  | writer ops => exact St.Ext.write ..
+  | upgrade proto r ops => exact St.Ext.trans (St.Ext.emit ..) (St.Ext.write ..)
+
+/-- the delivered record and the read outcome computed by `handle`. -/
+def handleRead (a : Action) (body : Body) (bs : Bytes) (fin : EndState) : Bytes × Option ReadOut × Body × Bytes :=
+  if a.asReaderCalls > 0 && a.readTotal > 0 then
+    Body.readUpTo (a.readTotal + 1) body (max a.bufSize 1) a.readTotal bs fin
+  else ([], none, body, bs)
+
+def readEndOf : Option ReadOut → ReadEnd
+  | none => .none
+  | some .eof => .eof
+  | some .err => .err
+  | some .pending => .pending
+  | some (.data _) => .none
+
+/-- `handle`, decomposed. -/
+theorem handle_eq (s : St) (h : Head) (fr : Framing) (last : Bool) (a : Action) (body : Body) (bs : Bytes)
+    (fin : EndState) :
+    handle s h fr last a body bs fin =
+      let rd := handleRead a body bs fin
+      let s1 := handleS1 s h fr a
+      let d : Delivered := ⟨h.method, h.url, h.version, h.headers, fr.bodyLength, rd.1, readEndOf rd.2.1, last⟩
+      let s2 : St := { s1 with delivered := s1.delivered ++ [d] }
+      if readEndOf rd.2.1 = .pending then (s2, rd.2.2.2, true)
+      else
+        match Body.drain (rd.2.2.2.length + 2) rd.2.2.1 rd.2.2.2 fin with
+        | some bs2 => (handleS3 s2 h a.fin, bs2, false)
+        | none => (handleS3 s2 h a.fin, [], true) := by
+  unfold handle handleRead
+  generalize (if (decide (a.asReaderCalls > 0) && decide (a.readTotal > 0)) = true then
+        Body.readUpTo (a.readTotal + 1) body (max a.bufSize 1) a.readTotal bs fin
+      else ([], none, body, bs)) = rd
+  obtain ⟨got, rend, body1, bs1⟩ := rd
+  rcases rend with _ | (_ | _ | _ | _)
+  all_goals first | rfl | (cases a.fin <;> rfl)
+
+/-- the state `handle` returns extends the state it started from. -/
+theorem handle_ext (s : St) (h : Head) (fr : Framing) (last : Bool) (a : Action) (body : Body) (bs : Bytes)
+    (fin : EndState) : St.Ext s (handle s h fr last a body bs fin).1 := by
+  rw [handle_eq]
+  have h2 : ∀ d, St.Ext s { handleS1 s h fr a with delivered := (handleS1 s h fr a).delivered ++ [d] } :=
+    fun d => St.Ext.trans (handleS1_ext s h fr a) (St.Ext.deliver _ d)
+  simp only
+  split
+  · exact h2 _
+  · split
+    · exact St.Ext.trans (h2 _) (handleS3_ext ..)
+    · exact St.Ext.trans (h2 _) (handleS3_ext ..)
+
+theorem finish_ext (s : St) (e : ConnEnd) :
+    (∃ ds, (s.finish e).delivered = s.delivered ++ ds) ∧ (∃ o, (s.finish e).out = s.out ++ o) ∧
+      (∃ st, (s.finish e).statuses = s.statuses ++ st) :=
+  ⟨⟨[], by simp [St.finish]⟩, ⟨[], by simp [St.finish]⟩, ⟨[], by simp [St.finish]⟩⟩
+
+/-- a trace extends a state. -/
+def St.ExtT (s : St) (t : Trace) : Prop :=
+  (∃ ds, t.delivered = s.delivered ++ ds) ∧ (∃ o, t.out = s.out ++ o) ∧ (∃ st, t.statuses = s.statuses ++ st)
+
+theorem St.ExtT.finish (s : St) (e : ConnEnd) : St.ExtT s (s.finish e) := finish_ext s e
+
+theorem St.Ext.transT {a b : St} {t : Trace} (h1 : St.Ext a b) (h2 : St.ExtT b t) : St.ExtT a t := by
+  obtain ⟨⟨d1, hd1⟩, ⟨o1, ho1⟩, ⟨t1, ht1⟩⟩ := h1
+  obtain ⟨⟨d2, hd2⟩, ⟨o2, ho2⟩, ⟨t2, ht2⟩⟩ := h2
+  exact ⟨⟨d1 ++ d2, by rw [hd2, hd1, List.append_assoc]⟩, ⟨o1 ++ o2, by rw [ho2, ho1, List.append_assoc]⟩,
+    ⟨t1 ++ t2, by rw [ht2, ht1, List.append_assoc]⟩⟩
+
+theorem runLoop_ext (fuel : Nat) : ∀ (idx : Nat) (s : St) (bs : Bytes) (fin : EndState) (script : Script),
+    St.ExtT s (runLoop fuel idx s bs fin script) := by
+  induction fuel with
+  | zero => intro idx s bs fin script; exact St.ExtT.finish ..
+  | succ fuel ih =>
+    intro idx s bs fin script
+    have hf : ∀ e, St.ExtT s (s.finish e) := fun e => St.ExtT.finish s e
+    have he : ∀ c b f e, St.ExtT s ((s.emit c b f).finish e) :=
+      fun c b f e => St.Ext.transT (St.Ext.emit ..) (St.ExtT.finish ..)
+    unfold runLoop
+    simp only
+    repeat' split
+    all_goals first
+      | exact hf _
+      | exact he _ _ _ _
+      | exact St.Ext.transT (St.Ext.emit ..) (ih ..)
+      | exact St.Ext.transT (handle_ext ..) (St.ExtT.finish ..)
+      | exact St.Ext.transT (handle_ext ..) (ih ..)
+
+/-- one iteration of the loop on a well-framed, fully available, supported-version request. -/
+theorem runLoop_step (fuel idx : Nat) (s : St) (bs : Bytes) (fin : EndState) (script : Script)
+    (h : Head) (rest : Bytes) (fr : Framing)
+    (hh : readHead bs fin = .ok (h, rest))
+    (hf : framingOf h.headers = .ok fr)
+    (hshort : ∀ n, fr.kind = .buffered n → n ≤ rest.length)
+    (hver : (⟨Extracted.maxVersion.1, Extracted.maxVersion.2⟩ : Version).lt h.version = false) :
+    runLoop (fuel + 1) idx s bs fin script =
+      if (handle s h fr (isLastRequest h.version h.headers) (script idx) (initialBody fr.kind rest).1
+            (initialBody fr.kind rest).2 fin).2.2 = true then
+        (handle s h fr (isLastRequest h.version h.headers) (script idx) (initialBody fr.kind rest).1
+            (initialBody fr.kind rest).2 fin).1.finish .waiting
+      else if isLastRequest h.version h.headers = true then
+        (handle s h fr (isLastRequest h.version h.headers) (script idx) (initialBody fr.kind rest).1
+            (initialBody fr.kind rest).2 fin).1.finish .closed
+      else
+        runLoop fuel (idx + 1)
+          (handle s h fr (isLastRequest h.version h.headers) (script idx) (initialBody fr.kind rest).1
+            (initialBody fr.kind rest).2 fin).1
+          (handle s h fr (isLastRequest h.version h.headers) (script idx) (initialBody fr.kind rest).1
+            (initialBody fr.kind rest).2 fin).2.1 fin script := by
+  simp only [runLoop, hh, hf, hver]
+  cases hk : fr.kind with
+  | buffered n =>
+    have := hshort n hk
+    have hd : decide (rest.length < n) = false := by simp; omega
+    simp only [hd]; rfl
+  | _ => rfl
+
+/-! ### statuses and flushing inside `handle` (C18) -/
+
+theorem handleS1_statuses (s : St) (h : Head) (fr : Framing) (a : Action) :
+    (handleS1 s h fr a).statuses =
+      s.statuses ++ (if fr.expectContinue ∧ 0 < a.asReaderCalls then [100] else []) := by
+  unfold handleS1
+  by_cases h1 : 0 < a.asReaderCalls <;> cases h2 : fr.expectContinue <;> simp [h1, St.emit]
+
+theorem handleS3_statuses (s2 : St) (h : Head) (f : Finish) :
+    (handleS3 s2 h f).statuses = s2.statuses ++ Spec.finishStatus f := by
+  cases f <;> simp [handleS3, Spec.finishStatus, St.emit]
+
+theorem handleS3_out (s2 : St) (h : Head) (f : Finish) (hfl : s2.flushed ≤ s2.out.length) :
+    ∃ rest, (handleS3 s2 h f).out = s2.out ++ rest ∧ s2.flushed ≤ (handleS3 s2 h f).flushed := by
+  cases f with
+  | respond r => exact ⟨_, rfl, by simp [handleS3, St.emit]; omega⟩
+  | drop => exact ⟨_, rfl, by simp [handleS3, St.emit]; omega⟩
+  | writer ops => exact ⟨_, rfl, wopsFlushed_ge ops _ _ hfl⟩
+  | upgrade proto r ops =>
+    refine ⟨(printResp r.toResp r.pieces h.version h.headers false (some proto)).getD [] ++ wopsBytes ops,
+      by simp [handleS3, St.emit], ?_⟩
+    simp only [handleS3]
+    refine Nat.le_trans ?_ (wopsFlushed_ge ops _ _ (by simp [St.emit]))
+    simp [St.emit]; omega
+
 end TH
